@@ -2,12 +2,14 @@
 # usage: tools/scratch_check.sh <workspace-name> <patch> <PROP>...|ALL
 # Applies a patch to a scratch worktree of /repo (never /repo itself) and runs the given quick checks from a scratch
 # copy of /verif whose harness points at that worktree. Prints one line per check. VERIF_SEED is passed through.
+# VERIF_SRC=<dir> takes the checks from a frozen snapshot of /verif instead (long screens while /verif is being edited).
 NAME="$1"; PATCH="$(realpath "$2")"; shift 2
 W=/tmp/scratch_$NAME
 mkdir -p $W
 if [ ! -d $W/repo ]; then git -C /repo worktree add -q --detach $W/repo HEAD || exit 2; fi
 (cd $W/repo && git checkout -q -- . && git checkout -q --detach "$(git -C /repo rev-parse HEAD)") || exit 2
-rsync -a --delete --exclude target --exclude work --exclude .git --exclude "replays/*/found" /verif/ $W/verif/
+SRC="${VERIF_SRC:-/verif}"
+rsync -a --delete --exclude target --exclude work --exclude .git --exclude "replays/*/found" $SRC/ $W/verif/ 2>/dev/null
 rm -rf $W/verif/replays/*/found
 sed -i "s#path = \"/repo\"#path = \"$W/repo\"#" $W/verif/harness/Cargo.toml
 (cd $W/repo && git apply "$PATCH") || { echo "patch does not apply"; exit 2; }
